@@ -12,9 +12,30 @@ package json
 //@ rec f64len(v uint64) int = f64len(v)
 //@ rec f64dig(v uint64, k int) byte = f64dig(v, k)
 
+// The trust sits on the two thin wrappers around the assembly formatters (i64toa / f64toa: grow the slice, call the
+// native routine on its tail, extend the length); the exported EncodeInt64 / EncodeFloat64 are VERIFIED against the
+// same statement, so a change to them (a "fast path" that formats a double through the integer formatter, say) is
+// checked: two different arguments of an uninterpreted function cannot be proved to give the same digits.
+//@ spec i64toa
+//@   trusted
+//@   requires buf != nil
+//@   ensures len: len(*buf) == old(len(*buf)) + i64len(val) && 1 <= i64len(val) && i64len(val) <= 20
+//@   ensures prefix: forall i :: 0 <= i && i < old(len(*buf)) ==> (*buf)[i] == old((*buf)[i])
+//@   ensures digits: forall k :: 0 <= k && k < i64len(val) ==> (*buf)[old(len(*buf))+k] == i64dig(val, k)
+//@   ensures mem: (same(*buf, old(*buf)) && cap(*buf) == old(cap(*buf))) || fresh(*buf)
+//@   modifies *buf, (*buf)[len(*buf):cap(*buf)]
+
+//@ spec f64toa
+//@   trusted
+//@   requires buf != nil
+//@   ensures len: len(*buf) == old(len(*buf)) + f64len(bits(val)) && 1 <= f64len(bits(val)) && f64len(bits(val)) <= 32
+//@   ensures prefix: forall i :: 0 <= i && i < old(len(*buf)) ==> (*buf)[i] == old((*buf)[i])
+//@   ensures digits: forall k :: 0 <= k && k < f64len(bits(val)) ==> (*buf)[old(len(*buf))+k] == f64dig(bits(val), k)
+//@   ensures mem: (same(*buf, old(*buf)) && cap(*buf) == old(cap(*buf))) || fresh(*buf)
+//@   modifies *buf, (*buf)[len(*buf):cap(*buf)]
+
 //@ spec EncodeInt64
 //@   props C08 C03
-//@   trusted
 //@   ensures len: len(r0) == len(buf) + i64len(val) && 1 <= i64len(val) && i64len(val) <= 20
 //@   ensures prefix: forall i :: 0 <= i && i < len(buf) ==> r0[i] == old(buf[i])
 //@   ensures digits: forall k :: 0 <= k && k < i64len(val) ==> r0[len(buf)+k] == i64dig(val, k)
@@ -23,7 +44,6 @@ package json
 
 //@ spec EncodeFloat64
 //@   props C08 C03
-//@   trusted
 //@   ensures len: len(r0) == len(buf) + f64len(bits(val)) && 1 <= f64len(bits(val)) && f64len(bits(val)) <= 32
 //@   ensures prefix: forall i :: 0 <= i && i < len(buf) ==> r0[i] == old(buf[i])
 //@   ensures digits: forall k :: 0 <= k && k < f64len(bits(val)) ==> r0[len(buf)+k] == f64dig(bits(val), k)
